@@ -188,6 +188,10 @@ void prop(DP &dp, const ref::Bytes &sched, Ctx &ctx) {
 			M_.init(n.c);          // the reference continues from the state the commands produced
 		}
 	}
+	// the bytes of the uplink traffic are set aside first (the thread plans would otherwise use up the case and leave one
+	// message); they are used again from the start while application threads are still running
+	ref::Bytes traffic_bytes = dp.bytes(std::min<size_t>(dp.left() / (free_run ? 2 : 3), 400));
+	DP tdp(traffic_bytes);
 	unsigned nt = (unsigned) dp.range(2, free_run ? 12 : 4);
 	bool watch_case = dp.chance(110);          // watch: state changes only through the main thread's messages
 	int done = 0;
@@ -201,6 +205,27 @@ void prop(DP &dp, const ref::Bytes &sched, Ctx &ctx) {
 	for (auto &id : P.by_kind[gq::A_REVERSER]) pool.push_back({5, id});
 	for (auto &id : P.by_kind[gq::A_BOOSTER]) pool.push_back({6, id});
 	for (auto &id : P.by_kind[gq::A_OUTPUT]) pool.push_back({7, id});
+	// focus: all watched getters and all injected messages concern one kind of entity, so that a reader and the receiver
+	// thread meet on the same fields often (mostly in the free-running flavour, where ThreadSanitizer needs the two accesses)
+	int focus = -1;
+	if (watch_case && dp.chance(free_run ? 170 : 50)) {
+		focus = (int) dp.pick(8);
+		std::vector<Watch> fp;
+		for (auto &w : pool) if (w.kind == focus || (focus == 2 && w.kind == 3) || (focus == 3 && w.kind == 2)) fp.push_back(w);
+		if (fp.empty()) focus = -1; else { pool = fp; ctx.desc << " focus on entity kind " << focus << "\n"; }
+	}
+	auto concerns = [&](uint8_t type) {
+		switch (focus) {
+		case 0: return type == M::BM_SPEED || type == M::BM_DYN_STATE || type == M::CS_DRIVE_ACK || type == M::BM_ADDRESS;
+		case 1: return type == M::BM_OCC || type == M::BM_FREE || type == M::BM_ADDRESS || type == M::BM_CURRENT || type == M::BM_CONFIDENCE;
+		case 2: case 3: return type == M::ACCESSORY_STATE || type == M::CS_ACCESSORY_ACK || type == M::CS_ACCESSORY_MANUAL;
+		case 4: return type == M::LC_STAT || type == M::LC_WAIT;
+		case 5: return type == M::VENDOR;
+		case 6: return type == M::BOOST_STAT || type == M::BOOST_DIAGNOSTIC;
+		case 7: return type == M::CS_STATE;
+		default: return true;
+		}
+	};
 	unsigned total_calls = 0;
 	for (unsigned t = 0; t < nt; t++) {
 		std::unique_ptr<Plan> pl(new Plan);
@@ -234,10 +259,13 @@ void prop(DP &dp, const ref::Bytes &sched, Ctx &ctx) {
 	unsigned injected = 0;
 	int guard = 0;
 	while (__atomic_load_n(&done, __ATOMIC_RELAXED) < (int) nt && guard++ < 400000) {
-		if (injected == 0 || (dp.more() && dp.chance(170))) {
+		if (!tdp.more() && !traffic_bytes.empty() && injected < (free_run ? 400u : 60u)) tdp.pos = 0;
+		if (injected == 0 || (tdp.more() && tdp.chance(free_run ? 240 : 170))) {
 			int node;
 			ref::Msg m;
-			if (known_message(dp, n, node, m)) {
+			bool have = known_message(tdp, n, node, m);
+			for (int again = 0; have && focus >= 0 && !concerns(m.type) && again < 12; again++) { m = ref::Msg(); have = known_message(tdp, n, node, m); }
+			if (have) {
 				const cfg::Board *b = n.bus.nodes[(size_t) node].board_id.empty() ? nullptr : n.c.board(n.bus.nodes[(size_t) node].board_id);
 				uint64_t t_inj = vf_now_us();
 				if (watch_case) M_.rx(b, m);
@@ -250,7 +278,7 @@ void prop(DP &dp, const ref::Bytes &sched, Ctx &ctx) {
 				}
 			}
 		}
-		vf_usleep(free_run ? 3000 : 1000);
+		vf_usleep(free_run ? 1500 : 1000);
 	}
 	if (__atomic_load_n(&done, __ATOMIC_RELAXED) < (int) nt) ctx.fail("HANG: application threads did not finish");
 	for (unsigned t = 0; t < nt; t++) vf_pthread_join(th[t], nullptr);
@@ -282,6 +310,7 @@ void prop(DP &dp, const ref::Bytes &sched, Ctx &ctx) {
 	std::string an = lifecycle_anomalies(true);
 	if (!an.empty()) ctx.fail("LIFECYCLE: " + an);
 	ctx.tag(watch_case ? "watch-case" : "mix-case");
+	if (focus >= 0) ctx.tag("focus-case");
 	ctx.tag(free_run ? "free-running" : "scheduled");
 	if (contracts::available()) { ctx.count("contract-checks", (long) contracts::checked()); ctx.count("distinct-accessors-checked", (long) contracts::distinct_checked()); }
 	ctx.count("threads", nt);
